@@ -127,7 +127,7 @@ def gen_case(r, size="quick"):
     allow_mixed = r.chance(1, 4)
     allow_key = r.chance(1, 5)
     allow_wrapperless = r.chance(1, 25)
-    allow_rebind = r.chance(1, 8)
+    allow_rebind = r.chance(1, 5)
     few_names = r.chance(1, 2)      # concentrate on few patterns so that conflicts are frequent
     focus = r.weighted([(None, 5), ("elem", 3), ("attr", 1), ("text", 1)])
     if focus:
@@ -140,7 +140,7 @@ def gen_case(r, size="quick"):
         if few_names and r.chance(2, 3):
             alts = [r.choice(["a", "*", "a[1]", "node()", "b", "@x", "@*", "text()", "a/b", "*[1]", "/"])]
         prio = r.choice(PRIOS) if r.chance(1, 3) else None
-        return {"id": ids[0], "mode": r.weighted([(0, 5), (1, 4), (2, 0 if focus else 1)]), "prio": prio, "alts": alts,
+        return {"id": ids[0], "mode": r.weighted([(0, 5), (1, 3), (2, 1 if focus else 2)]), "prio": prio, "alts": alts,
                 "ai": r.chance(1, 4)}
 
     remaining = [ntmpl]
@@ -207,6 +207,32 @@ def gen_case(r, size="quick"):
                     t["call"] = nt["id"]
                     if nt["ai"]:
                         t["ai"] = False
+                    if r.chance(1, 4):
+                        t["bare"] = True      # the body is only the call
+                        t["ai"] = False
+    if r.chance(1, 4):
+        # xsl:apply-templates select="." in a higher mode with an xsl:with-param whose body is xsl:apply-imports or a
+        # call of a named template (-> apply-imports): the body belongs to the caller's context (XSLT 11.6, 5.6)
+        named_ok = [t for _, t, _ in all_templates(main) if t.get("named")]
+        # as above: a rule below the module of a named template must not call one (the unchanged engine would loop)
+        below2 = set()
+
+        def collect2(m, inside):
+            for t2, _ in flat_templates(m):
+                if inside:
+                    below2.add(t2["id"])
+            for c in flat_imports(m):
+                collect2(c, True)
+        for _, m in all_modules(main):
+            if any(t2.get("named") for t2, _ in flat_templates(m)):
+                collect2(m, False)
+        for _, t, _ in all_templates(main):
+            if t["alts"] and not t.get("named") and not t.get("bare") and t["mode"] < 2 and r.chance(1, 3) and not any(
+                    m.get("wrapperless") and any(it.get("t") is t for it in m["items"]) for _, m in all_modules(main)):
+                wp = {"mode": r.range(t["mode"] + 1, 2), "call": 0}
+                if named_ok and t["id"] not in below2 and r.chance(1, 3):
+                    wp["call"] = r.choice(named_ok)["id"]
+                t["wp"] = wp
     keymatch = r.choice(["text()|b", "b|comment()", "a|@x", "processing-instruction()|a/b", "text()", "/ | a"])
     return {"doc": gen_doc(r, 14 if big else 10), "keymatch": keymatch, "main": main}
 
@@ -313,20 +339,45 @@ def esc(s):
     return s.replace("&", "&amp;").replace("<", "&lt;").replace('"', "&quot;")
 
 
+# mode 1 is written "m1"; mode 2 is written "p:m2", a QName whose prefix is resolved in the module that uses it: p is
+# bound to u1 everywhere except in "rebind" modules/includes, where it is bound to u2 -- there the same text names a
+# different mode ({u2}m2, number 3 in the model).  The driver asks for m1, p:m2 (= {u1}m2) and q:m2 (= {u2}m2).
+MODE_TEXT = {1: "m1", 2: "p:m2"}
+
+
+def eff_mode(mode, rebind):
+    return 3 if (mode == 2 and rebind) else mode
+
+
 def tmpl_xml(t):
     if t.get("named"):
         return '<xsl:template name="n%d"><t k="%d"/>%s</xsl:template>' % (
             t["id"], t["id"], "<xsl:apply-imports/>" if t["ai"] else "")
     s = '<xsl:template match="%s"' % esc(pattern_text(t))
     if t["mode"]:
-        s += ' mode="m%d"' % t["mode"]
+        s += ' mode="%s"' % MODE_TEXT[t["mode"]]
     if t["prio"] is not None:
         s += ' priority="%s"' % fmt_prio(t["prio"])
-    s += '><t k="%d"/>' % t["id"]
+    nodirect = '<xsl:if test="false()">x</xsl:if>' if t.get("nodirect") else ""
+    if t.get("bare"):
+        # the body is only a call of a named template (Xalan runs it as a "direct template")
+        return s + '>%s<xsl:call-template name="n%d"/></xsl:template>' % (nodirect, t["call"])
+    # every rule prints the parameter p it was given right after its marker
+    s += '><xsl:param name="p"/><t k="%d"/><xsl:copy-of select="$p"/>' % t["id"]
     for k in t.get("extra", []):
         s += '<t k="%d"/>' % k
     if t.get("call"):
         s += '<xsl:call-template name="n%d"/>' % t["call"]
+    wp = t.get("wp")
+    if wp:
+        body = nodirect + '<xsl:call-template name="n%d"/>' % wp["call"] if wp.get("call") else "<xsl:apply-imports/>"
+        if wp.get("var"):
+            # equivalent by XSLT 11.6: the parameter value is computed in the caller's context anyway
+            s += ('<xsl:variable name="v">%s</xsl:variable><xsl:apply-templates select="." mode="%s">'
+                  '<xsl:with-param name="p" select="$v"/></xsl:apply-templates>' % (body, MODE_TEXT[wp["mode"]]))
+        else:
+            s += ('<xsl:apply-templates select="." mode="%s"><xsl:with-param name="p">%s</xsl:with-param>'
+                  '</xsl:apply-templates>' % (MODE_TEXT[wp["mode"]], body))
     if t["ai"]:
         s += "<xsl:apply-imports/>"
     return s + "</xsl:template>"
@@ -381,6 +432,27 @@ def explicit_defaults(case):
     return c
 
 
+def wp_via_variable(case):
+    """§11.6: the value of xsl:with-param is computed like that of xsl:variable, in the context of the instruction's
+    parent template: binding it to a variable first and passing select="$v" is equivalent."""
+    import copy
+    c = copy.deepcopy(case)
+    for _, t, _ in all_templates(c["main"]):
+        if t.get("wp"):
+            t["wp"]["var"] = True
+    return c
+
+
+def undirect(case):
+    """an instruction that does nothing in front of a lone xsl:call-template changes nothing, but keeps Xalan from
+    running the named template as a "direct template" of the parent element."""
+    import copy
+    c = copy.deepcopy(case)
+    for _, t, _ in all_templates(c["main"]):
+        t["nodirect"] = True
+    return c
+
+
 def inline_calls(case):
     """§5.6: xsl:call-template does not change the current template rule, so calling a named template whose body is
     "marker, apply-imports" is equivalent to writing that body in the calling rule."""
@@ -389,7 +461,7 @@ def inline_calls(case):
     allt = [t for _, t, _ in all_templates(c["main"])]
     named = {t["id"]: t for t in allt if t.get("named")}
     for t in allt:
-        if t.get("call"):
+        if t.get("call") and not t.get("bare"):
             n = named[t["call"]]
             t["extra"] = [n["id"]]
             t["ai"] = t["ai"] or n["ai"]
@@ -479,8 +551,8 @@ def write_case(case, d, distinct_patterns=False):
     drv.append('<xsl:template match="/" priority="1000000"><xsl:choose><xsl:when test="drv__"><out>')
     drv.append('<xsl:for-each select="document(\'doc.xml\')">')
     drv.append('<xsl:for-each select=". | .//node() | .//@*">')
-    for mode in (0, 1, 2):
-        drv.append('<n m="%d">%s<xsl:apply-templates select="."%s/></n>' % (mode, ident, ' mode="m%d"' % mode if mode else ""))
+    for mode, text in ((0, None), (1, "m1"), (2, "p:m2"), (3, "q:m2")):
+        drv.append('<n m="%d">%s<xsl:apply-templates select="."%s/></n>' % (mode, ident, ' mode="%s"' % text if text else ""))
     drv.append('</xsl:for-each>')
     for path, t, rb in all_templates(case["main"]):
         for j, a in enumerate(t["alts"]):
@@ -521,8 +593,14 @@ def model_lines(case, nodes, matches):
             ai = "%d" % (1 if t["ai"] else 0)
             if t.get("call"):
                 ai += "c%d" % t["call"]
+            if t.get("bare"):
+                ai += "x"
+            elif t.get("wp"):
+                ai += "w%d" % eff_mode(t["wp"]["mode"], rb)
+                if t["wp"].get("call"):
+                    ai += "b%d" % t["wp"]["call"]
             L.append(("tmpl %s %d %d %s %d %s %d %s" % (
-                ps, t["id"], t["mode"], "-" if t["prio"] is None else str(t["prio"]), patkey(pattern_text(t)),
+                ps, t["id"], eff_mode(t["mode"], rb), "-" if t["prio"] is None else str(t["prio"]), patkey(pattern_text(t)),
                 ai, len(t["alts"]), alts)).rstrip())
     for n in nodes:
         L.append("node %d %s %s %s %s" % (n["id"], n["kind"], n["lname"], n["text"], " ".join(str(k) for k in n["kids"])))
